@@ -51,7 +51,7 @@ impl_trivial!(ShareOp, MutRc, 'a);
 impl_trivial!(ShareOpThreads, MutArc);
 
 macro_rules! impl_observable_methods {
-  ($subject: ty) => {
+  ($subject: ty, $release_before_connect: expr) => {
     type Unsub = RefCountSubscription<
       $subject,
       <$subject as Observable<Item, Err, O>>::Unsub,
@@ -66,6 +66,14 @@ macro_rules! impl_observable_methods {
           let subscription = subject.clone().actual_subscribe(observer);
           let connected = InnerShareOp::Connected(subject.clone());
           let connectable = std::mem::replace(&mut *inner, connected);
+          if $release_before_connect {
+            // the state says `Connected` from here on. A cold source emits
+            // synchronously inside `connect()`, and whoever subscribes to this
+            // share from there (a callback, or a flattening operator starting
+            // its next inner observable) must not find the state cell still
+            // borrowed.
+            drop(inner);
+          }
 
           match connectable {
             InnerShareOp::Connectable(connectable) => connectable.connect(),
@@ -90,7 +98,7 @@ where
   O: Observer<Item, Err> + 'a,
   S: Observable<Item, Err, Subject<'a, Item, Err>>,
 {
-  impl_observable_methods!(Subject<'a, Item, Err>);
+  impl_observable_methods!(Subject<'a, Item, Err>, true);
 }
 
 impl<'a, S, Item, Err> ObservableExt<Item, Err> for ShareOp<'a, Item, Err, S> where
@@ -105,7 +113,10 @@ where
   O: Observer<Item, Err> + Send + 'static,
   S: Observable<Item, Err, SubjectThreads<Item, Err>>,
 {
-  impl_observable_methods!(SubjectThreads< Item, Err>);
+  // the thread-safe form keeps its state locked until the source is
+  // connected: a subscriber joining from another thread must not get ahead of
+  // the connection and miss what the source emits in between
+  impl_observable_methods!(SubjectThreads< Item, Err>, false);
 }
 
 impl<S, Item, Err> ObservableExt<Item, Err> for ShareOpThreads<Item, Err, S> where
